@@ -243,4 +243,74 @@ theorem infAccess_lawful : infAccess.Lawful where
     | setL0 t => simp [infAccess, Op.ptrInf, InfL.step, InfL.setL0]
     | setVel t => simp [infAccess, Op.ptrInf, InfL.step, InfL.setVel]
 
+/-! ### finite layer with lazy noise and cache -/
+
+theorem FinC.reset_false_eq_fresh (C : FinC) :
+    C.step (.op (.reset false)) = FinC.fresh C.base.nx C.base.ny C.base.vel C.base.par C.base.orig := by
+  simp [FinC.step, FinC.fresh, FinL.reset_false_eq_fresh]
+
+theorem FinC.step_keeps (C : FinC) (o : COp) (h : o ≠ .op (.reset true)) :
+    (C.step o).base.nx = C.base.nx ∧ (C.step o).base.ny = C.base.ny ∧ (C.step o).base.orig = C.base.orig := by
+  rcases C with ⟨b, v, ca⟩
+  cases o with
+  | op o =>
+    cases o with
+    | reset i => cases i <;> simp_all [FinC.step, FinL.reset, FinL.pickRng, FinL.makeNoise]
+    | evolve t => simp [FinC.step, FinL.evolve]
+    | setCn2 t => simp [FinC.step, FinL.setCn2]
+    | setL0 t => simp [FinC.step, FinL.setL0]
+    | setVel t => simp [FinC.step, FinL.setVel]
+  | read => cases ca <;> cases v <;> simp [FinC.step, FinC.read, FinL.redraw, FinL.makeNoise]
+
+theorem FinC.run_keeps (C : FinC) (h : List COp) (hh : ∀ o ∈ h, o ≠ .op (.reset true)) :
+    (C.run h).base.nx = C.base.nx ∧ (C.run h).base.ny = C.base.ny ∧ (C.run h).base.orig = C.base.orig := by
+  induction h generalizing C with
+  | nil => exact ⟨rfl, rfl, rfl⟩
+  | cons o h ih =>
+    have := ih (C.step o) (fun o' ho' => hh o' (by simp [ho']))
+    have hs := C.step_keeps o (hh o (by simp))
+    simp only [FinC.run, List.foldl_cons] at this ⊢
+    rw [this.1, this.2.1, this.2.2, hs.1, hs.2.1, hs.2.2]; exact ⟨rfl, rfl, rfl⟩
+
+/-- the realisation is the one of `g`: the original generator is in state `g`, a present `_noise` was drawn from `g`
+with the current parameters, and a cached screen is never newer than... (no condition on the cache: it may be stale) -/
+def FinC.Live (C : FinC) (g : Rng) : Prop :=
+  C.base.orig = g ∧ (C.valid = true → C.base.noise = g ∧ C.base.noisePar = C.base.par)
+
+theorem FinC.fresh_live (nx ny : Nat) (vel : V2) (par : Par) (g : Rng) : (FinC.fresh nx ny vel par g).Live g := by
+  simp [FinC.Live, FinC.fresh, FinL.fresh, FinL.reset, FinL.pickRng, FinL.makeNoise]
+
+theorem FinC.step_live (C : FinC) (o : COp) (g : Rng) (hl : C.Live g) (h : o ≠ .op (.reset true)) :
+    (C.step o).Live g := by
+  rcases C with ⟨b, v, ca⟩
+  obtain ⟨h1, h2⟩ := hl
+  simp only at h1 h2
+  cases o with
+  | op o =>
+    cases o with
+    | reset i => cases i <;> simp_all [FinC.Live, FinC.step, FinL.reset, FinL.pickRng, FinL.makeNoise]
+    | evolve t => simpa [FinC.Live, FinC.step, FinL.evolve] using ⟨h1, h2⟩
+    | setCn2 t => simp [FinC.Live, FinC.step, FinL.setCn2, h1]
+    | setL0 t => simp [FinC.Live, FinC.step, FinL.setL0, h1]
+    | setVel t => simpa [FinC.Live, FinC.step, FinL.setVel] using ⟨h1, h2⟩
+  | read =>
+    cases ca <;> cases v <;> simp_all [FinC.Live, FinC.step, FinC.read, FinL.redraw, FinL.makeNoise]
+
+theorem FinC.run_live (C : FinC) (h : List COp) (g : Rng) (hl : C.Live g) (hh : ∀ o ∈ h, o ≠ .op (.reset true)) :
+    (C.run h).Live g := by
+  induction h generalizing C with
+  | nil => exact hl
+  | cons o h ih =>
+    exact ih (C.step o) (C.step_live o g hl (hh o (by simp))) (fun o' ho' => hh o' (by simp [ho']))
+
+theorem FinC.shown_after_evolve (C : FinC) (g : Rng) (t : Rat) (hl : C.Live g) :
+    (C.step (.op (.evolve t))).shown = (g, C.base.par, (C.base.vel.1 * t, C.base.vel.2 * t)) := by
+  rcases C with ⟨b, v, ca⟩
+  obtain ⟨h1, h2⟩ := hl
+  simp only at h1 h2
+  cases v
+  · simp [FinC.step, FinC.shown, FinC.read, FinL.redraw, FinL.makeNoise, FinL.screen, FinL.evolve, h1]
+  · obtain ⟨h3, h4⟩ := h2 rfl
+    simp [FinC.step, FinC.shown, FinC.read, FinL.screen, FinL.evolve, h3, h4]
+
 end HcipyVerif.Layer
